@@ -544,7 +544,8 @@ impl Translator {
             | FuncKind::ForeignFunctionWrapper { .. }
             | FuncKind::HostFunctionWrapper(_) => {
                 st.return_stack.pop();
-                let SolvedType::Function(_, out_ty) = func_ty else { unreachable!() };
+                // the declared result type may be a type parameter that this instance binds to void
+                let SolvedType::Function(_, out_ty) = func_ty.subst(&mono) else { unreachable!() };
                 if *out_ty == SolvedType::Void {
                     self.emit(st, Instr::ReturnVoid);
                 } else {
